@@ -24,6 +24,8 @@ def run(chk, tier):
         position_is_rmw(chk, F, 'R04.3', cfg)
         E.slot_lookup(chk, F, 'R04.4', cfg)
         B.ordered_implicit_once(chk, F, 'R04.6', cfg)
+        from props import ctor
+        ctor.builder_constructors(chk, F, 'R04.0', cfg)
 
 
 def range_assignment(chk, F, rule, cfg):
